@@ -39,6 +39,9 @@ type FS struct {
 	partial *Term // bytes written by the interrupted write
 	step    int
 	log     []string
+	renames int // os.Rename calls so far (each is one rename syscall natively)
+	crashedAt int
+	crashPart int
 }
 
 func (ex *Exec) fs() *FS {
@@ -130,6 +133,7 @@ func (ex *Exec) crashPoint(what string) {
 	fs.step++
 	fs.log = append(fs.log, what)
 	if ex.branch(ex.ts.Eq(fs.crashAt, ex.ts.Const(64, uint64(fs.step)))) {
+		fs.crashedAt = fs.step
 		panic(crashSignal{})
 	}
 }
@@ -229,7 +233,9 @@ func (ex *Exec) writeModel(of *openFile, data []Value) Value {
 		fs.log = append(fs.log, "write "+of.f.path.Describe())
 		if ex.branch(ex.ts.Eq(fs.crashAt, ex.ts.Const(64, uint64(fs.step)))) {
 			// the process dies inside the write: a prefix has been written
+			ex.assume(ex.ts.Ule(fs.partial, ex.ts.Const(64, uint64(len(data)-1))))
 			n := int(ex.concretize(fs.partial, 0, uint64(len(data)-1)))
+			fs.crashedAt, fs.crashPart = fs.step, n
 			for _, v := range data[:n] {
 				of.f.data = append(of.f.data, copyVal(v))
 			}
@@ -360,6 +366,7 @@ func initOsStubs() {
 	})
 	reg("os.Rename", func(ex *Exec, fn *ssa.Function, args []Value, caller *Frame) Value {
 		from, to := strArg(ex, args[0], "os.Rename"), strArg(ex, args[1], "os.Rename")
+		ex.fs().renames++
 		f := ex.findFile(from)
 		if f == nil {
 			return ex.pathError("rename", from, "ErrNotExist")
